@@ -308,7 +308,15 @@ pub fn signal_phase(
                     } else if short && got.class() != "deadlock" {
                         format!("signal.short_budget_not_reported@{}", got.class())
                     } else {
-                        crate::drive::mismatch_sig("signal", cx, &got, false)
+                        // the listed finding `signal.cycles_changed` is specific: programs with
+                        // several VMs report MORE cycles than the uninterrupted run (carried VM
+                        // swap charges folded into the total at a pause); any other change of the
+                        // cycle count gets a signature of its own
+                        match (&got, &r.verdict) {
+                            (Verdict::Ok(a), Verdict::Ok(b)) if a < b => "signal.cycles_lower_than_uninterrupted".to_string(),
+                            (Verdict::Ok(_), Verdict::Ok(_)) if !cx.case.name.contains("spawn") => "signal.cycles_changed@single_vm".to_string(),
+                            _ => crate::drive::mismatch_sig("signal", cx, &got, false),
+                        }
                     };
                     l.violation(
                         &sig,
